@@ -9,6 +9,7 @@ import (
 	"sync"
 	"time"
 
+	"github.com/q191201771/lal/pkg/base"
 	"github.com/q191201771/lal/pkg/logic"
 )
 
@@ -60,9 +61,15 @@ func lcHlsPlant(outDir, stream string) {
 }
 
 func lcHlsGet(sm *logic.ServerManager, target, remote string) (code int, loc string) {
+	code, loc, _ = lcHlsGetN(sm, target, remote)
+	return
+}
+
+// lcHlsGetN also tells how many bytes of content the answer carried.
+func lcHlsGetN(sm *logic.ServerManager, target, remote string) (code int, loc string, n int) {
 	req, err := httpRequest(target, remote)
 	if err != nil {
-		return -1, ""
+		return -1, "", 0
 	}
 	rec := httptest.NewRecorder()
 	func() {
@@ -73,7 +80,7 @@ func lcHlsGet(sm *logic.ServerManager, target, remote string) (code int, loc str
 		}()
 		sm.VerifServeHls(rec, req)
 	}()
-	return rec.Code, rec.Header().Get("Location")
+	return rec.Code, rec.Header().Get("Location"), rec.Body.Len()
 }
 
 func newLcHls(sm *logic.ServerManager, stream string) *lcHls {
@@ -168,6 +175,37 @@ func (h *lcHls) poll(x, how string) string {
 	default:
 		return fmt.Sprintf("err:%d", code)
 	}
+}
+
+// blacklist: the address of client x is put on the IP black-list, and x asks again with its session id (twice: players
+// retry).  The first of these requests ends the session; neither gets any content.  settle: wait for a sweep of the
+// handler afterwards, which has nothing left to report.
+func (h *lcHls) blacklist(x string, settle bool) string {
+	h.mu.Lock()
+	s := h.sess[x]
+	if s != nil {
+		s.kept = false
+	}
+	h.mu.Unlock()
+	if s == nil {
+		return "unopened"
+	}
+	ip := s.remote
+	if k := strings.LastIndexByte(ip, ':'); k >= 0 {
+		ip = ip[:k]
+	}
+	h.sm.CtrlAddIpBlacklist(base.ApiCtrlAddIpBlacklistReq{Ip: ip, DurationSec: 3600})
+	ret := "ok"
+	for k := 0; k < 2; k++ {
+		code, _, n := lcHlsGetN(h.sm, "/hls/"+h.stream+".m3u8?session_id="+s.sid, s.remote)
+		if code == 200 || n > 0 {
+			ret = fmt.Sprintf("served:%d", code)
+		}
+	}
+	if settle {
+		time.Sleep(1150 * time.Millisecond)
+	}
+	return ret
 }
 
 // silence: the client of x stops asking.
